@@ -1417,10 +1417,24 @@ def _calculate_divisions(statistics, dataset_info, npartitions):
                 statistics, columns=process_columns
             ):
                 if sorted_column_info["name"] in index:
-                    divisions = sorted_column_info["divisions"]
+                    if not _index_ranges_touch(statistics, sorted_column_info["name"]):
+                        divisions = sorted_column_info["divisions"]
                     break
 
     return divisions or (None,) * (npartitions + 1)
+
+
+def _index_ranges_touch(statistics, name):
+    # ``sorted_columns`` accepts parts whose index ranges share a boundary value
+    # (min == max of the previous part). Such a value lives in two partitions,
+    # so divisions built from these statistics would not describe the data.
+    last_max = None
+    for stats in statistics:
+        col = next(c for c in stats["columns"] if c["name"] == name)
+        if last_max is not None and col["min"] == last_max:
+            return True
+        last_max = col["max"]
+    return False
 
 
 #
